@@ -842,7 +842,15 @@ def r01_8(ctx):
             filtered = norm(n.target) != kv or any(isinstance(x, (ast.If, ast.Continue, ast.Break)) for x in ast.walk(n))
     if kv is None:
         raise AnalysisError("R01.8", run.where(ctor), "node map is neither a dict comprehension nor a loop over the graph's nodes")
-    ld = None
+    from ..core import local_defs
+
+    # temporaries are looked through, objects built by a constructor (the graph) keep their name
+    ld = {k: v for k, v in local_defs(run.node).items() if not any(isinstance(d, ast.Call) and isinstance(d.func, ast.Name) and d.func.id[:1].isupper() for d in v if d is not None)}
+    _resolve = resolve_expr
+
+    def resolve_expr(node_, e, _ld=ld):  # noqa: F811
+        return _resolve(node_, e, defs=_ld) if node_ is run.node else _resolve(node_, e)
+
     contig_txt = resolve_expr(run.node, args["contig_id"])
     mm = _re.fullmatch(r"(\w+)(?:\.nodes)?\[" + _re.escape(kv) + r"\]\.tags\['SN'\]\[1\]", contig_txt)
     if not mm:
